@@ -1691,7 +1691,32 @@ def generic_rules(prop, index, rep):
         ng += method_tested_rule(index, rep, rid2, mods)
         ng += alias_restore_rule(index, rep, rid2, mods)
         ng += leaked_loop_value_rule(index, rep, rid2, mods)
+        ng += builtin_identity_rule(index, rep, rid2, mods)
         rep.ob(rid2, "src/dendropy", "%d nested loops and %d None-guards in the property's modules examined" % (nl, ng), True, nontrivial=nl + ng > 0)
+
+
+def builtin_identity_rule(index, rep, rid, modules):
+    """`id(x)` keys a memo by an object that takes part in the operation: x is a parameter, a local or an attribute -
+    never the name of a builtin (`id(object)`, `id(type)`, `id(list)`): that is the identity of the builtin itself, so
+    the entry can never match anything the memo is consulted for."""
+    import builtins
+    n = 0
+    for m in modules:
+        for f in index.functions_in_module(m):
+            bound = None
+            for c in calls_in(f.node, nested=True):
+                if isinstance(c.func, ast.Name) and c.func.id == "id" and len(c.args) == 1 and isinstance(c.args[0], ast.Name):
+                    n += 1
+                    nm = c.args[0].id
+                    if not hasattr(builtins, nm):
+                        continue
+                    if bound is None:
+                        bound = set(f.all_params) | {x.id for x in ast.walk(f.node) if isinstance(x, ast.Name) and isinstance(x.ctx, ast.Store)}
+                    if nm in bound:
+                        continue
+                    rep.check(False, rid, f.qualname, "memo keyed by the builtin `%s`" % nm, fn_where(f, c), "",
+                              "%s uses `id(%s)` as a key: `%s` is the builtin, not one of the objects the operation deals with, so the entry never matches - an attribute-bound annotation copied through this default mapper stays bound to the SOURCE object and keeps reporting the source's attribute on the copy" % (f.qualname, nm, nm))
+    return n
 
 
 LEAKED_LOOP_VALUE_OK = {
